@@ -29,6 +29,7 @@ M_FDE_MC_DES = (FDE, """            yield adds(
 
 MUTANTS = {
     'C04': [
+        ('necessity-redundancy-guard-wrong-world', [(KFDE, "                if (node, w2) in self[NodesWorlds][branch]:", "                if (node, w1) in self[NodesWorlds][branch]:")], 'C04.R3'),
         ('fde-material-conditional-designated-one-branch', [M_FDE_MC_DES], 'C04.R1'),
         ('rules-OperandsRule-flips-designation', [(RULES, "        yield adds(sdwgroup(*((s, d, w) for s in s)))", "        yield adds(sdwgroup(*((s, not d, w) for s in s)))")], 'C04.R1'),
         ('fde-universal-uses-fresh-constant-only', [(FDE, "    class ExistentialNegatedDesignated(UniversalDesignated): pass", "    class ExistentialNegatedDesignated(ExistentialDesignated): pass")], 'C04.R2'),
@@ -153,6 +154,7 @@ class ReflexiveTransitiveAccesss""")], 'C04.R6'),
         ('tableau-branch-does-not-copy-parent', [(TAB, "            branch = parent.copy(parent = parent)", "            branch = Branch()")], 'C01.R4'),
     ],
     'C02': [
+        ('necessity-gate-starves', [(KFDE, "                not self[NodeCount].isleast(node, branch) and\n                self._least_pending(branch)", "                not self[NodeCount].isleast(node, branch)")], 'C02.R8'),
         ('fde-disjunction-undesignated-branches', [(FDE, "    class DisjunctionUndesignated(rules.OperandsRule): pass", "    class DisjunctionUndesignated(rules.BranchingOperandsRule): pass")], 'C02.R1'),
         ('read-node-table-swapped', [(MODELS, "                base = 'FNTB'", "                base = 'FNBT'")], 'C02.R2'),
         ('countermodel-test-ignores-conclusion', [(MODELS, "            self.value_of(a.conclusion) not in self.Meta.designated_values)", "            self.value_of(a.conclusion) in self.Meta.values)")], 'C02.R3'),
@@ -176,6 +178,9 @@ class ReflexiveTransitiveAccesss""")], 'C04.R6'),
         ('fde-inexact-operator-rule', [M_FDE_MC_DES], 'C03.R1'),
     ],
     'C10': [
+        ('necessity-redundancy-guard-wrong-world', [(KFDE, "                if (node, w2) in self[NodesWorlds][branch]:", "                if (node, w1) in self[NodesWorlds][branch]:")], 'C10.R6'),
+        ('reflexive-guard-other-pair', [(RULES, "                pair = WorldPair(w, w)\n                if self[WorldIndex].has(branch, pair):", "                pair = WorldPair(w, w)\n                if self[WorldIndex].has(branch, WorldPair(0, w)):")], 'C10.R6'),
+        ('possibility-skips-when-body-here', [(KFDE, "            w1 = node['world']\n            w2 = branch.new_world()", "            w1 = node['world']\n            if branch.has(sdwnode(si, d, w1)):\n                return\n            w2 = branch.new_world()")], 'C10.R6'),
         ('designation-closure-never-closes-same-designation-pair', [(FDE, "return branch.find(sdwnode(s, not node['designated'], node.get('world')))", "return branch.find(sdwnode(~s, node['designated'], node.get('world')))")], 'C10.R1'),
         ('rule-inspects-constant-index', [(FDE, "            s = c >> self.sentence(node)\n            if self.negated:", "            if c.index == 0 and c.subscript > 3:\n                return\n            s = c >> self.sentence(node)\n            if self.negated:")], 'C10.R2'),
         ('helper-builds-specific-constant', [(HELPERS, "        access = self[branch]\n", "        access = self[branch]\n        probe = Constant(0, 0)\n")], 'C10.R2'),
